@@ -5,6 +5,7 @@ import (
 	"context"
 	"errors"
 	"fmt"
+	"os"
 	"runtime"
 	"strconv"
 	"strings"
@@ -49,6 +50,12 @@ type Case struct {
 	Sched  []int  `json:"sched,omitempty"`
 	Exh    bool   `json:"exh,omitempty"` // past the forced prefix always take choice 0 (exhaustive exploration)
 	KF     string `json:"kf,omitempty"`
+	// LeaseMs > 0: the providers run with this lease period (hook VerifSetLeaseTTL) and the scheduler
+	// lingers leaseTTL/5 of real time after a faulted release, so that whatever the implementation
+	// schedules "for a bit later" (timers) happens while the run is still observed. 0: default 10 s.
+	LeaseMs int `json:"lease_ms,omitempty"`
+	// Free != nil: a free-running (un-gated) stress case, see free.go
+	Free *Free `json:"free,omitempty"`
 }
 
 type Direct struct {
@@ -95,6 +102,32 @@ type rawEv struct {
 	flt int
 	cls string
 	res string
+	ver string // released-create: the version the storage returned
+	seq int    // position in the order of everything recorded (storage calls: the order the store applied them)
+}
+
+// a storage call issued by a goroutine that is not a worker (a timer)
+type foreignEv struct {
+	k      string // cas | create | delete
+	cls    string
+	ver    string // cas: version presented
+	newVer string // cas: version written
+	seq    int
+	at     time.Time
+}
+
+// the driver's copy of the model's timer table (model/LockLTS.v: arm_first, Invoke Unlock,
+// TimerFire, Rearm), needed to name the timer a renewal call belongs to
+const (
+	tmArmed = iota
+	tmCancelled
+	tmFinished
+)
+
+type mtimer struct {
+	L         int
+	state     int
+	cancelIdx int // tmCancelled: index in evs of the Invoke Unlock that cancelled it (-1: never armed)
 }
 
 type worker struct {
@@ -126,7 +159,22 @@ type worker struct {
 
 type driver struct {
 	mu      sync.Mutex
+	stMu    sync.Mutex // held around every storage call that is applied + its recording, and by the scheduler while it takes a snapshot
 	c       *Case
+	seq     int
+	ttl     time.Duration
+	recExp  time.Time // ExpiresAt of the stored record as far as the gate saw it written (zero: none)
+	lapsed  bool      // real time came within leaseTTL/4 of that instant: the run says nothing (lease premise)
+	fevs    []foreignEv
+	timers  []mtimer
+	futureL []int          // per Locker: the timer its l.future points to (-1: none)
+	verTm   map[string]int // version -> the timer that will present it
+	unclear string         // a renewal call the driver cannot place: the run is repeated, never reported
+
+	lingerOn   bool
+	lingerFrom time.Time
+	lingerIn   int
+	lingered   int
 	workers []*worker
 	byGid   map[uint64]*worker
 	pass    bool
@@ -173,13 +221,57 @@ func (d *driver) countForeign(k string) {
 
 func (d *driver) note(w *worker, ev rawEv) {
 	d.mu.Lock()
+	d.seq++
+	ev.seq = d.seq
 	w.raw = append(w.raw, ev)
+	d.mu.Unlock()
+}
+
+// noteForeign records a storage call of a non-worker goroutine (called with stMu held)
+func (d *driver) noteForeign(ev foreignEv, wrote bool, exp *time.Time) {
+	d.mu.Lock()
+	d.seq++
+	ev.seq = d.seq
+	ev.at = time.Now()
+	d.fevs = append(d.fevs, ev)
+	d.foreign[ev.k]++
+	if wrote {
+		if exp != nil {
+			d.recExp = *exp
+		} else {
+			d.recExp = time.Time{}
+		}
+	}
+	d.mu.Unlock()
+}
+
+func (d *driver) setRecExp(exp *time.Time) {
+	d.mu.Lock()
+	if exp != nil {
+		d.recExp = *exp
+	} else {
+		d.recExp = time.Time{}
+	}
+	d.mu.Unlock()
+}
+
+// checkLapse: the property (and the theorem) assume that leases of live holders do not run out.
+// With short leases on a loaded machine they may: a run in which real time came within
+// leaseTTL/4 of the expiry of the stored record is repeated and never reported.
+func (d *driver) checkLapse() {
+	now := time.Now()
+	d.mu.Lock()
+	if !d.recExp.IsZero() && now.After(d.recExp.Add(-d.ttl/4)) {
+		d.lapsed = true
+	}
 	d.mu.Unlock()
 }
 
 // park blocks the calling worker at the gate until the scheduler releases it
 func (d *driver) park(w *worker, ev rawEv) int {
 	d.mu.Lock()
+	d.seq++
+	ev.seq = d.seq
 	w.raw = append(w.raw, ev)
 	w.phase = phGate
 	w.gateCall = ev.k
@@ -300,7 +392,23 @@ func (d *driver) pollOnce() (bool, string) {
 
 var errHung = errors.New("hung")
 
-func (d *driver) waitQuiescent() error {
+// settle waits for a quiescent point and returns holding stMu: no storage call of a timer
+// goroutine can be applied between the decision "everybody is settled" and the snapshot.
+func (d *driver) settle() error {
+	for {
+		sig, err := d.waitQuiescent()
+		if err != nil {
+			return err
+		}
+		d.stMu.Lock()
+		if ok, sig2 := d.pollOnce(); ok && sig2 == sig {
+			return nil
+		}
+		d.stMu.Unlock()
+	}
+}
+
+func (d *driver) waitQuiescent() (string, error) {
 	deadline := time.Now().Add(6 * time.Second)
 	stable, last := 0, ""
 	spins := 0
@@ -324,7 +432,7 @@ func (d *driver) waitQuiescent() error {
 				}
 				d.mu.Unlock()
 				if same {
-					return nil
+					return sig, nil
 				}
 				stable, last = 0, ""
 			}
@@ -332,7 +440,7 @@ func (d *driver) waitQuiescent() error {
 			stable, last = 0, ""
 		}
 		if time.Now().After(deadline) {
-			return errHung
+			return "", errHung
 		}
 		spins++
 		if spins < 20 {
@@ -407,10 +515,18 @@ func (d *driver) infer(w *worker) {
 			}
 			w.mph = mCreate
 		case "released-create":
+			d.flushForeign(ev.seq)
 			d.emit("StCreate %d %s", t, coqFlt(ev.flt, ev.cls))
 			d.counts["create:"+coqFlt(ev.flt, ev.cls)+"/"+ev.cls]++
 			if ev.flt == fOk && ev.cls == "nil" {
 				w.mph = mAfterCreateOK
+				// arm_first: timeout.Call(supportTimeout(ver), leaseTTL/2) + l.future.Store
+				if w.cur != nil {
+					id := len(d.timers)
+					d.timers = append(d.timers, mtimer{L: w.cur.L, state: tmArmed, cancelIdx: -1})
+					d.futureL[w.cur.L] = id
+					d.verTm[ev.ver] = id
+				}
 			} else {
 				w.mph = mAfterCreateFail
 				if ev.flt == fReplyLost && ev.cls == "nil" {
@@ -424,6 +540,7 @@ func (d *driver) infer(w *worker) {
 		case "arrive-waitret":
 			w.mph = mWaitRet
 		case "released-waitret":
+			d.flushForeign(ev.seq)
 			if ev.cls == "ctx" {
 				d.emit("StWaitRet %d WCtx", t)
 			} else {
@@ -434,6 +551,7 @@ func (d *driver) infer(w *worker) {
 		case "arrive-delete":
 			w.mph = mDelete
 		case "released-delete":
+			d.flushForeign(ev.seq)
 			d.emit("StDelete %d %s", t, coqFlt(ev.flt, ev.cls))
 			d.counts["delete:"+coqFlt(ev.flt, ev.cls)+"/"+ev.cls]++
 			if ev.flt == fReqLost {
@@ -469,6 +587,109 @@ func (d *driver) infer(w *worker) {
 			d.counts["ret:"+op.K+":"+ev.res]++
 			w.mph = mIdle
 			w.cur = nil
+		}
+	}
+}
+
+// flushForeign turns the recorded storage calls of non-worker goroutines with seq < upto into
+// labels, at the place among the workers' storage calls at which the store applied them.
+//
+// A renewal CasByVersion is the label StCas of the timer that carries the presented version;
+// the local steps around it cross no interface and are inferred: TimerFire right before it -
+// or, when an Unlock has meanwhile been invoked on that Locker (the callback had already been
+// taken by a watcher when Unlock's Cancel came), right before that Invoke -, Rearm right after
+// it. A renewal the driver's copy of the timer table cannot explain makes the run unclear
+// (repeated, never reported: renewal chains are C05's subject).
+//
+// A Create or a Delete is a storage call outside any operation: kvlock.go creates and deletes
+// the lock record only on the goroutine that is inside Lock/TryLock/LockWithCtx/Unlock. The
+// model has no such label (StDelete is enabled in Unl1 only, StCreate in CreateIssued only): it
+// is written into the trace for a thread that is Idle, and reported.
+func (d *driver) flushForeign(upto int) {
+	d.mu.Lock()
+	var now []foreignEv
+	rest := d.fevs[:0:0]
+	for _, e := range d.fevs {
+		if e.seq < upto {
+			now = append(now, e)
+		} else {
+			rest = append(rest, e)
+		}
+	}
+	d.fevs = rest
+	from := d.lingerFrom
+	d.mu.Unlock()
+	for _, e := range now {
+		switch e.k {
+		case "create", "delete":
+			lab := "StDelete"
+			if e.k == "create" {
+				lab = "StCreate"
+			}
+			d.emit("%s %d FOk", lab, d.c.NT)
+			after := ""
+			if !from.IsZero() {
+				after = fmt.Sprintf(", %.1f ms after a faulted release", float64(e.at.Sub(from))/1e6)
+			}
+			victim := ""
+			if e.k == "delete" && e.cls == "nil" {
+				d.mu.Lock()
+				for _, w := range d.workers {
+					for _, L := range w.holds {
+						victim = fmt.Sprintf(" IT REMOVED THE RECORD OF A LIVE HOLDER: goroutine %d holds the lock through Locker %d and has not called Unlock; the lock is free for everybody else now.", w.id, L)
+					}
+				}
+				d.mu.Unlock()
+			}
+			d.violation("storage call outside any operation", fmt.Sprintf("%s of the lock record (result: %s) issued by a goroutine that is not inside Lock/TryLock/LockWithCtx/Unlock (a timer or background goroutine)%s; lease %v.%s Such a call can remove or replace the record of whoever holds the lock by then", strings.TrimPrefix(lab, "St"), e.cls, after, d.ttl, victim))
+			d.counts["foreign:"+e.k]++
+		case "cas":
+			d.counts["renewal:"+e.cls]++
+			id, ok := d.verTm[e.ver]
+			if !ok {
+				d.unclear = "a renewal presented a version that no recorded Create or renewal returned to the lock client"
+				continue
+			}
+			tm := &d.timers[id]
+			loaded := d.futureL[tm.L]
+			switch {
+			case tm.state == tmArmed:
+				d.emit("TimerFire %d", id)
+			case tm.state == tmCancelled && tm.cancelIdx >= 0:
+				// the callback had started before Unlock's Cancel took effect
+				at := tm.cancelIdx
+				d.evs = append(d.evs, "")
+				copy(d.evs[at+1:], d.evs[at:])
+				d.evs[at] = fmt.Sprintf("E (TimerFire %d)", id)
+				for i := range d.timers {
+					if d.timers[i].state == tmCancelled && d.timers[i].cancelIdx >= at && i != id {
+						d.timers[i].cancelIdx++
+					}
+				}
+				loaded = id
+				d.counts["renewal:fired-before-cancel"]++
+			default:
+				d.unclear = "a renewal call of a timer that has fired already or was never armed"
+				continue
+			}
+			if e.cls != "nil" && e.cls != "notexist" && e.cls != "conflict" {
+				d.unclear = "a renewal call answered with an error of no class (" + e.cls + ")"
+				tm.state = tmFinished
+				continue
+			}
+			d.emit("StCas %d FOk", id)
+			d.emit("Rearm %d", id)
+			tm.state = tmFinished
+			if e.cls == "nil" {
+				n := len(d.timers)
+				if d.futureL[tm.L] == loaded {
+					d.timers = append(d.timers, mtimer{L: tm.L, state: tmArmed, cancelIdx: -1})
+					d.futureL[tm.L] = n
+				} else {
+					d.timers = append(d.timers, mtimer{L: tm.L, state: tmCancelled, cancelIdx: -1})
+				}
+				d.verTm[e.newVer] = n
+			}
 		}
 	}
 }
@@ -686,14 +907,41 @@ func (d *driver) exec(w *worker, op *Op) (res string) {
 	return "RPanic"
 }
 
+func (d *driver) foreignWrites() int {
+	d.mu.Lock()
+	defer d.mu.Unlock()
+	return d.foreign["create"] + d.foreign["delete"]
+}
+
+func (d *driver) isLapsed() bool {
+	d.mu.Lock()
+	defer d.mu.Unlock()
+	return d.lapsed
+}
+
 func (d *driver) violation(what, detail string) {
 	d.direct = append(d.direct, Direct{What: what, Detail: detail})
 }
 
 // Run executes one case on the real implementation
 func Run(c *Case) (res *Result) {
+	if c.Free != nil {
+		return RunFree(c)
+	}
 	d := &driver{c: c, byGid: map[uint64]*worker{}, foreign: map[string]int{}, counts: map[string]int{},
-		key: "/locks/L", faultsLeft: c.Faults}
+		key: "/locks/L", faultsLeft: c.Faults, verTm: map[string]int{}, ttl: 10 * time.Second}
+	// development knobs (never set by bin/check): force a lease period on every case and slow the
+	// scheduler down, so that many renewals fall into the runs and the label inference for them is exercised
+	stepSleep := time.Duration(0)
+	if v, err := strconv.Atoi(os.Getenv("LOCKDRV_FORCE_LEASE_MS")); err == nil && v > 0 {
+		c.LeaseMs = v
+	}
+	if v, err := strconv.Atoi(os.Getenv("LOCKDRV_STEP_SLEEP_US")); err == nil && v > 0 {
+		stepSleep = time.Duration(v) * time.Microsecond
+	}
+	if c.LeaseMs > 0 {
+		d.ttl = time.Duration(c.LeaseMs) * time.Millisecond
+	}
 	res = &Result{Counts: d.counts}
 	var mr *miniredis.Miniredis
 	if c.Redis {
@@ -726,11 +974,17 @@ func Run(c *Case) (res *Result) {
 		if c.Redis {
 			path = "locks/"
 		}
-		d.provs = append(d.provs, dist.NewKvsLockProvider(g, path))
+		p := dist.NewKvsLockProvider(g, path)
+		if c.LeaseMs > 0 && !dist.VerifSetLeaseTTL(p, d.ttl) {
+			res.Discard = "VerifSetLeaseTTL: not a kvs lock provider"
+			return res
+		}
+		d.provs = append(d.provs, p)
 	}
 	d.provDown = make([]bool, np)
 	for _, p := range c.Prov {
 		d.lockers = append(d.lockers, d.provs[p].NewLocker("L"))
+		d.futureL = append(d.futureL, -1)
 	}
 	ready := make(chan struct{})
 	for t := 0; t < c.NT; t++ {
@@ -782,14 +1036,24 @@ func Run(c *Case) (res *Result) {
 	}()
 
 	rnd := prng.New(c.SSeed, "lockdrv-sched", c.ID)
+	lrnd := prng.New(c.SSeed, "lockdrv-linger", c.ID)
 	d.snapshotHook()
 	acted := -1
 	maxSteps := 60 + 40*len(c.Ops)
 	for step := 0; ; step++ {
-		if err := d.waitQuiescent(); err != nil {
+		if err := d.settle(); err != nil {
 			d.violation("hung", "no quiescent point reached within 6 s after step "+strconv.Itoa(step)+": a goroutine that should return (version changed, record gone or context done) does not")
 			break
 		}
+		if stepSleep > 0 {
+			d.stMu.Unlock()
+			time.Sleep(stepSleep)
+			if err := d.settle(); err != nil {
+				d.violation("hung", "no quiescent point")
+				break
+			}
+		}
+		// stMu is held: no renewal call can be applied until the snapshot is written
 		d.snapshotHook()
 		if acted >= 0 {
 			d.infer(d.workers[acted])
@@ -799,8 +1063,31 @@ func Run(c *Case) (res *Result) {
 				d.infer(w)
 			}
 		}
+		d.flushForeign(1 << 62)
 		d.emitSnap()
+		// the choice is made on the situation the snapshot describes (a renewal applied right after
+		// it may wake a waiter: that is the next step's business)
 		as := d.actions()
+		d.stMu.Unlock()
+		d.checkLapse()
+		if d.foreignWrites() > 0 || d.unclear != "" || d.isLapsed() {
+			break
+		}
+		if d.lingerOn && (d.lingerIn <= 0 || len(as) == 0) {
+			// real time is given to whatever the implementation scheduled for "a bit later" when the
+			// release failed; everybody stays where they are (parked, blocked or holding)
+			d.lingerOn = false
+			d.lingered++
+			d.counts["linger-after-faulted-release"]++
+			if w := time.Until(d.lingerFrom.Add(d.ttl / 5)); w > 0 {
+				time.Sleep(w)
+			}
+			acted = -1
+			continue
+		}
+		if d.lingerOn {
+			d.lingerIn--
+		}
 		if len(as) == 0 {
 			break
 		}
@@ -829,6 +1116,9 @@ func Run(c *Case) (res *Result) {
 		res.Branch = append(res.Branch, len(as))
 		a := as[idx]
 		acted = a.t
+		// renewal calls applied since the snapshot come before whatever this action writes into the trace
+		d.stMu.Lock()
+		d.flushForeign(1 << 62)
 		switch a.kind {
 		case "start":
 			w := d.workers[a.t]
@@ -850,6 +1140,12 @@ func Run(c *Case) (res *Result) {
 			w.cancelled = false
 			if op.K == "ctx" {
 				w.ctx, w.cancel = context.WithCancel(context.Background())
+			}
+			if (op.K == "unlock" || op.K == "badunlock") && d.curCnt[op.L] {
+				// Unlock: CompareAndSwap(lckCntr,1,0) succeeds, future.Load().Cancel()
+				if f := d.futureL[op.L]; f >= 0 && d.timers[f].state == tmArmed {
+					d.timers[f].state, d.timers[f].cancelIdx = tmCancelled, len(d.evs)
+				}
 			}
 			d.emit("Invoke %d (%s)", a.t, coqOp(op))
 			if op.K == "unlock" || op.K == "badunlock" {
@@ -874,6 +1170,9 @@ func Run(c *Case) (res *Result) {
 			}
 			d.mu.Lock()
 			w.phase = phRunning
+			if a.flt != fOk && w.gateCall == "arrive-delete" && c.LeaseMs > 0 {
+				d.lingerOn, d.lingerFrom, d.lingerIn = true, time.Now(), lrnd.Intn(5)
+			}
 			d.mu.Unlock()
 			w.relC <- a.flt
 		case "cancel":
@@ -892,9 +1191,11 @@ func Run(c *Case) (res *Result) {
 				d.inner.Delete(context.Background(), d.key)
 				d.evs = append(d.evs, "E (Expire)")
 				d.counts["expire"]++
+				d.setRecExp(nil)
 			}
 			d.orphan = false
 		}
+		d.stMu.Unlock()
 	}
 	res.Steps = len(res.Taken)
 	// end of the run: is everything finished?
@@ -929,13 +1230,18 @@ func Run(c *Case) (res *Result) {
 	if len(d.overlaps) > 0 {
 		d.direct = append(d.direct, Direct{What: "two holders at the same time", Detail: strings.Join(d.overlaps, "; ")})
 	}
-	ncas := d.foreign["cas"]
 	d.mu.Unlock()
 	if complete {
 		d.finalProbes()
 	}
-	if ncas > 0 {
-		res.Discard = "a lease renewal ran during the schedule (run took longer than leaseTTL/2)"
+	d.mu.Lock()
+	d.counts["renewal-calls-labelled"] += d.foreign["cas"]
+	d.mu.Unlock()
+	if d.unclear != "" {
+		res.Discard = "a lease renewal the driver cannot place in the trace: " + d.unclear
+	}
+	if d.isLapsed() {
+		res.Discard = "real time came within leaseTTL/4 of the expiry of the stored record (machine stalled): the lease premise cannot be vouched for"
 	}
 	res.Direct = d.direct
 	res.Nontrivial = d.opsRun >= 3 && d.contention
